@@ -3,7 +3,8 @@
 Enumerated (no sampling): every weakly connected layer hierarchy with <= N layers over the five layer types
 whose PARENT-REFs ODX allows (refinherit.ALLOWED_PARENTS), one representative per isomorphism class  x  every
 placement of 1..2 short names (per layer: absent / defined locally / referenced from a library layer with
-DIAG-COMM-REF + DIAG-VARIABLE-REF)  x  every NOT-INHERITED set over the (PARENT-REF, name) pairs the parent
+DIAG-COMM-REF + DIAG-VARIABLE-REF / defined locally as a UNIT-GROUP whose content is the same in every layer, i.e.
+value-equal but distinct objects, which must not count as a clash)  x  every NOT-INHERITED set over the (PARENT-REF, name) pairs the parent
 really offers.  Each placement is instantiated at once in all categories that use the mechanism (services,
 single-ECU jobs, DOPs, structures, tables, global negative responses, diag variables, functional classes,
 state charts, additional audiences, unit groups; in the small spaces also the other eight kinds of data objects
@@ -51,7 +52,7 @@ DDDS_GETTER = {"sfield": "static_fields", "eopfield": "end_of_pdu_fields", "dlfi
 # ---------------------------------------------------------------------------------------------
 # reference predictions
 # ---------------------------------------------------------------------------------------------
-def abstract_locals(case: Dict[str, Any], referable: bool, is_var: bool) -> List[Dict[int, Any]]:
+def abstract_locals(case: Dict[str, Any], referable: bool, is_var: bool, equalable: bool = False) -> List[Dict[int, Any]]:
     """Per layer {name index: owner} for one class of categories; owner = index of the defining layer or "LIB"."""
     out: List[Dict[int, Any]] = []
     for i, t in enumerate(case["types"]):
@@ -62,6 +63,8 @@ def abstract_locals(case: Dict[str, Any], referable: bool, is_var: bool) -> List
                     d[ni] = i
                 elif kind == 2 and referable:
                     d[ni] = "LIB"
+                elif kind == 3 and equalable:
+                    d[ni] = "EQ"  # value-equal in every layer that defines it: one identity for the model
         out.append(d)
     return out
 
@@ -87,18 +90,19 @@ def predict(case: Dict[str, Any], prefix: str = "") -> List[Dict[str, Any]]:
     preds: List[Dict[str, Any]] = []
     seen: Dict[str, int] = {}
     for esd, pv in READINGS:
-        memo: Dict[Tuple[bool, bool, bool], Any] = {}
+        memo: Dict[Tuple[bool, bool, bool, bool], Any] = {}
         views: List[Dict[str, List[Tuple[str, str]]]] = [dict() for _ in types]
         conflicts: List[Tuple[int, str, str]] = []
         for cat in cats:
             applies = eh.CATEGORIES[cat][1] in lists and bool(excl)
-            cls = (applies, cat in eh.REFERABLE_CATS, cat == "var")
+            cls = (applies, cat in eh.REFERABLE_CATS, cat == "var", cat in eh.EQUALABLE_CATS)
             if cls not in memo:
-                memo[cls] = ri.resolve(types, parents, abstract_locals(case, cls[1], cls[2]), excl if applies else None, esd=esd,
+                memo[cls] = ri.resolve(types, parents, abstract_locals(case, cls[1], cls[2], cls[3]), excl if applies else None, esd=esd,
                                        opaque=prot if (cls[2] and pv == "opaque") else ())
             v, cf = memo[cls]
             for i in range(len(types)):
-                views[i][cat] = sorted((eh.short_name(cat, nms[ni]), eh.marker(lib if o == "LIB" else lnames[o], cat, nms[ni]))
+                views[i][cat] = sorted((eh.short_name(cat, nms[ni]),
+                                        eh.marker(lib if o == "LIB" else eh.EQ if o == "EQ" else lnames[o], cat, nms[ni]))
                                        for ni, o in v[i].items() if not isinstance(o, ri.Conflict))
             conflicts.extend((i, cat, eh.short_name(cat, nms[ni])) for i, ni in cf)
         key = repr((views, conflicts))
@@ -296,7 +300,8 @@ def classify_diffs(case: Dict[str, Any], pred: Dict[str, Any], obs: List[Dict[st
                 def via(marker: Optional[str]) -> str:
                     if marker is None:
                         return "none"
-                    if layer_of_marker(marker) == lname:
+                    if layer_of_marker(marker) == lname or (layer_of_marker(marker) == eh.EQ and (sn, marker) not in
+                                                            [x for p in parents[i] for x in pred["views"][p].get(cat, [])]):
                         return "local"
                     ts = sorted({types[p] for p in parents[i] if (sn, marker) in pred["views"][p].get(cat, [])})
                     return "+".join(ts) if ts else "not-offered-by-any-parent"
@@ -476,6 +481,11 @@ def configurations(types: Sequence[str], parents: Sequence[Sequence[int]], k: in
         if any(not any(c) for c in cols):
             continue
         has_ref = any(2 in c for c in cols)
+        if any(3 in c for c in cols):
+            # value-equal unit groups: only the unit groups are instantiated (no NOT-INHERITED list governs them)
+            if not has_ref and not (k == 2 and cols[0] > cols[1]):
+                yield dict(base, place=place, excl=[], excl_lists=list(eh.EXCL_LISTS), cats=list(eh.EQUALABLE_CATS))
+            continue
         clash = None if has_ref else plain_clash(dict(base, place=place))
         for excl in exclusion_sets(parents, place, k, max_excl):
             if k == 2:
@@ -531,6 +541,14 @@ def explore_unit(unit: Tuple[Any, ...]) -> Part:
             part.add("layer_counts", len(case["types"]))
             for c in case["cats"]:
                 part.add("categories", c)
+            if any(3 in row for row in case["place"]):
+                part.count("cases_with_value_equal_objects")
+                for i, ps in enumerate(case["parents"]):
+                    for a, b in itertools.combinations(ps, 2):
+                        for ni in range(len(case["names"])):
+                            if case["types"][a] == case["types"][b] and case["place"][a][ni] == 3 == case["place"][b][ni] \
+                                    and not case["place"][i][ni] and outcome == "loaded":
+                                part.count("value_equal_objects_from_equal_priority_parents_loaded")
             if case["excl"]:
                 part.count("cases_with_exclusions")
             if len(case["excl_lists"]) < len(eh.EXCL_LISTS):
@@ -892,16 +910,16 @@ def plan(quick: bool) -> Tuple[List[Tuple[Any, ...]], List[Tuple[Any, ...]], Lis
     runits: List[Tuple[Any, ...]] = []
     bounds: Dict[str, Any] = {}
     if quick:
-        spaces = [(1, 2, (0, 1, 2), True, True, 1), (2, 2, (0, 1, 2), True, True, 1), (3, 1, (0, 1, 2), True, True, 2),
+        spaces = [(1, 2, (0, 1, 2, 3), True, True, 1), (2, 2, (0, 1, 2, 3), True, True, 1), (3, 1, (0, 1, 2, 3), True, True, 2),
                   (3, 2, (0, 1), False, False, 4), (4, 1, (0, 1), False, False, 2)]
         pspaces = [(2, 1, (0, 1)), (3, 1, (0, 1))]
-        rspaces = [(1, 2, (0, 1, 2), True, True), (2, 2, (0, 1, 2), True, True), (3, 1, (0, 1), False, False)]
+        rspaces = [(1, 2, (0, 1, 2, 3), True, True), (2, 2, (0, 1, 2, 3), True, True), (3, 1, (0, 1, 3), False, False)]
     else:
-        spaces = [(1, 2, (0, 1, 2), True, True, 1), (2, 2, (0, 1, 2), True, True, 1), (3, 1, (0, 1, 2), True, True, 2),
-                  (3, 2, (0, 1, 2), True, False, 16), (4, 1, (0, 1, 2), False, False, 4), (4, 2, (0, 1), False, False, 0),
-                  (5, 1, (0, 1), False, False, 4)]
-        pspaces = [(2, 2, (0, 1, 2)), (3, 1, (0, 1, 2)), (4, 1, (0, 1))]
-        rspaces = [(1, 2, (0, 1, 2), True, True), (2, 2, (0, 1, 2), True, True), (3, 1, (0, 1, 2), True, True),
+        spaces = [(1, 2, (0, 1, 2, 3), True, True, 1), (2, 2, (0, 1, 2, 3), True, True, 1), (3, 1, (0, 1, 2, 3), True, True, 2),
+                  (3, 2, (0, 1, 2, 3), True, False, 16), (4, 1, (0, 1, 2, 3), False, False, 4), (4, 2, (0, 1), False, False, 0),
+                  (5, 1, (0, 1, 3), False, False, 4)]
+        pspaces = [(2, 2, (0, 1, 2, 3)), (3, 1, (0, 1, 2, 3)), (4, 1, (0, 1))]
+        rspaces = [(1, 2, (0, 1, 2, 3), True, True), (2, 2, (0, 1, 2, 3), True, True), (3, 1, (0, 1, 2, 3), True, True),
                    (3, 2, (0, 1), False, True)]
     desc = []
     for n, k, kinds, skew, full, nsh in spaces:
@@ -956,7 +974,8 @@ def run(ctx: Ctx) -> None:
         "is three-valued: a database must be consistent with 'highest' (documented by odxtools) or with 'lowest' as a whole",
         "diag variables of shared data handed through a PROTOCOL layer (which cannot hold variables) are three-valued",
         "objects defined separately are unequal (different ID and LONG-NAME); equal objects arise from DIAG-COMM-REF / "
-        "DIAG-VARIABLE-REF to one library object and from diamonds",
+        "DIAG-VARIABLE-REF to one library object, from diamonds, and (value-equal but distinct) from UNIT-GROUPs with identical "
+        "content in several layers -- the only inheritable kind without an ODXLINK id",
         "NOT-INHERITED entries only name objects the parent offers",
     ]
     pmap(ctx, explore_unit, units)
@@ -979,6 +998,8 @@ def run(ctx: Ctx) -> None:
     ctx.guard("all 19 categories instantiated", ctx.sets.get("categories", set()) == set(eh.FULL_CATS))
     ctx.guard("loads that succeed and loads that report a clash both seen", c.get("hierarchies_loaded", 0) > 0 and c.get("hierarchies_error", 0) > 0)
     ctx.guard("cases with NOT-INHERITED entries seen", c.get("cases_with_exclusions", 0) > 0)
+    ctx.guard("value-equal but distinct objects inherited from two equal-priority parents without a clash seen",
+              c.get("value_equal_objects_from_equal_priority_parents_loaded", 0) > 0)
     ctx.guard("cases with partial exclusion lists seen", c.get("cases_with_partial_exclusion_lists", 0) > 0)
     ctx.guard("decode() found visible and rejected invisible services", c.get("decode_found", 0) > 0 and c.get("decode_rejected", 0) > 0)
     ctx.guard("parent views compared with the database without the child", c.get("parent_view_comparisons", 0) > 0)
